@@ -68,6 +68,36 @@ def diag_class(msg):
     return m[:90]
 
 
+def match_compilation_messages(ctx):
+    """the shapes of the diagnostics match compilation can raise, read off compile_match.rs on every run: the format
+    strings next to each `Stage::other("compile")`; `{…}` holes become wildcards"""
+    path = os.path.join(os.environ.get("GV_REPO", "/repo"), "crates/compiler/src/compile_match.rs")
+    try:
+        lines = open(path).read().split("\n")
+    except OSError as e:
+        ctx.broken_ties.append(("compile_match.rs", str(e)))
+        return []
+    shapes = []
+    for i, l in enumerate(lines):
+        if 'Stage::other("compile")' not in l:
+            continue
+        window = "\n".join(lines[max(0, i - 12):i + 5])
+        for m in re.finditer(r'format!\(\s*"((?:[^"\\]|\\.)*)"', window):
+            rx = "^" + ".*".join(re.escape(part) for part in re.split(r"\{[^}]*\}", m.group(1))) + "$"
+            if rx not in shapes:
+                shapes.append(rx)
+    if len(shapes) < 3:
+        ctx.broken_ties.append(("compile_match.rs", f"expected at least 3 diagnostics of stage compile, found {shapes}"))
+    return shapes
+
+
+def only_match_compilation(outcome, shapes):
+    """`err:compile:<messages>` all of whose messages are diagnostics of match compilation (and not the errors stage
+    `compile` also carries: cycle, missing or stale interface, package mismatch - `check` raises those as `build` does)"""
+    f = outcome.split(":", 2)
+    return len(f) == 3 and f[0] == "err" and f[1] == "compile" and all(any(re.match(rx, m, re.S) for rx in shapes) for m in f[2].split(" | "))
+
+
 def run(ctx):
     ctx.extract()
     have_props = os.path.exists(os.path.join(vlib.LEAN, "GomlVerif/Props/C14.lean"))
@@ -87,6 +117,9 @@ def run(ctx):
     order_hist = collections.Counter()
     samples, distinct = [], set()
     equiv_lines, equiv_meta = [], {}
+    n_iface_compile_only = n_iface_both_err = 0
+    mc_shapes = match_compilation_messages(ctx)
+    iface_verdicts, iface_err_stage, whole_err_stage = collections.Counter(), collections.Counter(), collections.Counter()
 
     for pid, d in progs.items():
         if "whole" not in d:
@@ -95,7 +128,7 @@ def run(ctx):
         proj = d.get("project", ["?", "", "", "", ""])
         kinds[proj[0]] += 1
         for t in (proj[1].split(",") if len(proj) > 1 and proj[1] else []):
-            if proj[0] in ("template", "random-kinds", "import-rule", "early-diagnostic", "lookup-visibility", "c16-world"):
+            if proj[0] in ("template", "random-kinds", "import-rule", "early-diagnostic", "late-diagnostic", "lookup-visibility", "c16-world"):
                 tpl_tags[t] += 1
             if t.startswith("shape=") or t in ("generics", "ill-typed", "multi-file"):
                 tags[t] += 1
@@ -137,8 +170,36 @@ def run(ctx):
                 agree = False
                 ctx.report({"oracle": "acceptance", "whole": f"err:{w[1]}", "separate": f"err:{s[3]}"},
                            f"rejected in different stages: whole {w[1]}, separate {s[3]} ({s[4]}) in order {order}", payload)
+        # ---- check vs build, every package of every order, whether or not the project is accepted: `check_package` and
+        #      `build_package` run the same front end on the same files against the same interfaces, so they accept the
+        #      same packages with the same interface bytes and reject the same packages in the same stage with the same
+        #      diagnostics; the one stage `build` runs beyond `check` is match compilation (stage compile)
+        payload["check_vs_build"] = [r[:3] + [vlib.unesc(x)[:300] for x in r[3:5]] for r in d["iface"] if r[2] != "same"][:6]
+        for row in d["iface"]:
+            n_iface += 1
+            verdict = row[2]
+            chk, bld = (vlib.unesc(row[3]), vlib.unesc(row[4])) if len(row) > 4 else ("?", "?")
+            cst, bst = (x if x in ("ok", "?") else ":".join(x.split(":")[:2]) for x in (chk, bld))
+            iface_verdicts[f"{verdict} (whole program {'accepted' if w[0] == 'ok' else 'rejected'})"] += 1
+            if len(row) <= 4:
+                ctx.broken_ties.append(("harness", f"{pid}: IFACE row without the outcomes of check and build"))
+            elif verdict == "same":
+                n_iface_same += 1
+            elif chk == "ok" and only_match_compilation(bld, mc_shapes):
+                # accepted by the typer, rejected by match compilation, which `check` does not run; the whole-program
+                # path must then reject in stage compile as well (acceptance oracle above)
+                n_iface_compile_only += 1
+            elif chk != "ok" and bld != "ok" and cst == bst and sorted(map(diag_class, chk.split(":", 2)[2].split(" | "))) == sorted(map(diag_class, bld.split(":", 2)[2].split(" | "))):
+                n_iface_both_err += 1
+                iface_err_stage[cst.split(":")[1]] += 1
+            else:
+                kind = (verdict if verdict in ("differ", "check-ok-build-err", "check-err-build-ok", "both-err-different-stage")
+                        else "check-ok-build-err" if chk == "ok" else "both-err-different-diagnostics")
+                ctx.report({"oracle": "check-vs-build", "kind": kind, "check": cst, "build": bst},
+                           f"check_package and build_package disagree on package {row[1]} (order #{row[0]}): {kind}: check -> {chk[:160]}; build -> {bld[:160]}", payload)
         if w[0] == "err":
             n_both_err += agree
+            whole_err_stage[w[1]] += 1
             continue
         n_both_ok += agree
         # ---- behaviour
@@ -189,15 +250,6 @@ def run(ctx):
         if len(samples) < 3 and len(d["sep"]) > 1 and "generics" in (proj[1] if len(proj) > 1 else ""):
             samples.append({"id": pid, "tags": proj[1], "orders": [s[1] for s in d["sep"]], "whole_stdout": vlib.unesc(wg[1])[:200],
                             "go_text_equal_to_whole": [s[4] for s in d["sep"] if s[2] == "ok"]})
-        # ---- check vs build
-        for row in d["iface"]:
-            n_iface += 1
-            if row[2] in ("same", "both-err"):
-                n_iface_same += 1
-            else:
-                ctx.report({"oracle": "check-vs-build", "kind": row[2]},
-                           f"check_package and build_package disagree on package {row[1]} (order #{row[0]}): {row[2]}", payload)
-
     # ---- exports -> interface JSON -> exports is the identity on what an importer's typer reads (every built package,
     #      accepted or not as a whole project)
     n_rt = n_rt_same = n_rt_nonempty = 0
@@ -298,7 +350,11 @@ def run(ctx):
         "accepted_both_ways": n_both_ok, "rejected_both_ways_same_stage": n_both_err,
         "behaviour_comparisons(distinct separate Go per project)": {"checked": n_beh, "same_as_whole(Go.Sem, Sem, Go.Check)": n_beh_ok},
         "go_text": {"separate_equal_to_whole": n_text_equal, "differs(only order/temporaries, see tie)": n_text_differs},
-        "check_vs_build_interface": {"packages_checked": n_iface, "same_bytes": n_iface_same},
+        "check_vs_build_interface": {"packages_checked": n_iface, "same_bytes": n_iface_same,
+                                     "rejected_by_both_same_stage_same_diagnostics": n_iface_both_err, "of_which_by_stage": dict(iface_err_stage),
+                                     "accepted_by_check_rejected_by_match_compilation_in_build": n_iface_compile_only,
+                                     "verdicts": dict(iface_verdicts)},
+        "whole_program_rejections_by_stage": dict(whole_err_stage),
         "tie_link_environment": {"pairs(project x link order, <= 2 per project)": n_env, "model_agrees_with_both_ways_on_every_lookup": n_env_ok,
                                  "of_which_same_iteration_order_as_the_separate_link": n_env_same_order,
                                  "keys_exported_by_the_packages_themselves(builtins not counted)_per_project": dict(env_keys)},
